@@ -1119,6 +1119,12 @@ func (s *vSim) randomRun(o simOpts) {
 		nInit = 3
 		voters = []uint64{1, 2, 3}
 	}
+	if o.scenarios && s.tid%64 == 55 {
+		scen = 13
+		nInit = 6
+		voters = []uint64{1, 2, 3, 4, 5, 6}
+		s.ids = []uint64{1, 2, 3, 4, 5, 6}
+	}
 	if o.scenarios && s.tid%128 == 71 {
 		scen = 12
 		nInit = 3
@@ -1859,7 +1865,85 @@ func (s *vSim) scenario12(nextID uint64) uint64 {
 	return nextID + 1
 }
 
+// scenario13 (six voters): the removal of a voter is committed and applied on three replicas while the leader
+// and one follower lag behind with the apply; the shard splits into {leader, follower, removed replica} and
+// the other three, which elect a leader among the five remaining members and complete a write. A read is then
+// issued on the old leader: the removed replica and the follower confirm it, two of a quorum of four. When the
+// old leader applies the removal its quorum shrinks to three - the confirmation of the replica that is no
+// member any more must not count, the read has to stay pending (only two members of five vouch for the leader).
+func (s *vSim) scenario13() {
+	s.settle(60, nil, nil, nil, func() bool { return s.leaderNode() != nil && s.leaderNode().applied >= 7 })
+	l := s.leaderNode()
+	if l == nil || len(s.upNodes()) != 6 {
+		return
+	}
+	rest := []*vNode{}
+	for _, n := range s.upNodes() {
+		if n.id != l.id {
+			rest = append(rest, n)
+		}
+	}
+	a, x := rest[0], rest[1]
+	others := rest[2:]
+	sideA := map[uint64]bool{l.id: true, a.id: true, x.id: true}
+	only := func(ids ...uint64) map[uint64]bool {
+		m := map[uint64]bool{}
+		for _, n := range s.upNodes() {
+			m[n.id] = true
+		}
+		for _, id := range ids {
+			delete(m, id)
+		}
+		return m
+	}
+	lag := map[uint64]bool{l.id: true, a.id: true}
+	s.proposeCC(l, opRemove, x.id)
+	// committed everywhere, applied on the other three only
+	s.settle(4, nil, lag, only(l.id), func() bool {
+		for _, o := range others {
+			if !o.mem.rm[x.id] {
+				return false
+			}
+		}
+		return true
+	})
+	for _, o := range others {
+		if !o.mem.rm[x.id] {
+			return
+		}
+	}
+	if l.mem.rm[x.id] || a.mem.rm[x.id] {
+		return
+	}
+	split := func(m pb.Message) bool { return sideA[m.From] != sideA[m.To] }
+	// the other side elects a leader and completes a write
+	b := others[0]
+	s.settle(4*int(s.et), split, lag, only(b.id), func() bool { return b.peer.raft.state == leader })
+	if b.peer.raft.state != leader {
+		return
+	}
+	s.nextVal++
+	s.propose(b, s.nextVal)
+	s.settle(3, split, lag, only(b.id), nil)
+	if l.peer.raft.state != leader {
+		return
+	}
+	// a read on the cut-off leader: confirmed by the follower and the removed replica
+	s.nextCtx++
+	s.readIndex(l, s.nextCtx)
+	s.settle(2, split, lag, only(), nil)
+	// the old leader catches up with its apply: five members, quorum three
+	s.settle(1, split, map[uint64]bool{a.id: true}, only(), nil)
+	// the next heartbeat round
+	s.settle(3, split, map[uint64]bool{a.id: true}, only(l.id), nil)
+	s.settle(2, nil, nil, nil, nil)
+}
+
 func (s *vSim) scenario(k int, nextID uint64) uint64 {
+	if k == 13 {
+		s.scenario13()
+		return nextID
+	}
 	if k == 12 {
 		return s.scenario12(nextID)
 	}
